@@ -1,4 +1,5 @@
 import Hannibal.Model.Actor
+import Hannibal.Model.Sys
 /-
   Trace lines (the contract with the harness) → per-actor label sequences.
   Trusted glue: no property depends on anything but the labels produced here.
@@ -27,12 +28,15 @@ structure PState where
   omap : List (Nat × Nat) := []     -- operation → actor
   spawns : List SpawnInfo := []
   labels : List (Nat × Label) := [] -- (actor, label), reverse order
+  slabels : List SLabel := []       -- the same events as system labels (plus the multi-actor ones), reverse order
   bad : List String := []           -- lines not understood
   deriving Inhabited
 
 def PState.actorOfH (p : PState) (h : Nat) : Option Nat := (p.hmap.find? (·.1 == h)).map (·.2)
 def PState.actorOfO (p : PState) (o : Nat) : Option Nat := (p.omap.find? (·.1 == o)).map (·.2)
-def PState.emit (p : PState) (a : Nat) (l : Label) : PState := { p with labels := (a, l) :: p.labels }
+def PState.emit (p : PState) (a : Nat) (l : Label) : PState :=
+  { p with labels := (a, l) :: p.labels, slabels := .act a l :: p.slabels }
+def PState.semit (p : PState) (l : SLabel) : PState := { p with slabels := l :: p.slabels }
 def PState.oops (p : PState) (line : String) : PState := { p with bad := line :: p.bad }
 
 def parseStrat : String → Option Strategy
@@ -110,7 +114,8 @@ def parseLine (p : PState) (km : KMap) (line : String) : PState × KMap :=
      | some a, some h, some cap, some strat, some timeout =>
        let hk := if hk == "owning" then HKind.owning else HKind.addr
        let cfg : Cfg := { cap, strat, timeout, failOnTimeout := fail == "1", stream := stream == "1" }
-       ({ p with hmap := (h, a) :: p.hmap, spawns := p.spawns ++ [{ a, h, hk, cfg }] }, (h, hk) :: km)
+       ({ (p.semit (.spawn a cfg h hk)) with hmap := (h, a) :: p.hmap, spawns := p.spawns ++ [{ a, h, hk, cfg }] },
+        (h, hk) :: km)
      | _, _, _, _, _ => (p.oops line, km))
   | ["vnew", a, b, _k] =>
     (match a.toNat?, b.toNat? with
@@ -211,6 +216,22 @@ def parseLine (p : PState) (km : KMap) (line : String) : PState × KMap :=
        | "delayed_exec", [t, d] =>
          (match t.toNat?, d.toNat? with
           | some t, some d => (p.emit a (.ctxTimer t .delayedExec d), km) | _, _ => (p.oops line, km))
+       | "add_child", [h] =>
+         (match h.toNat? with
+          | some h => (match p.actorOfH h with
+            | some c => (p.semit (.addChild a 0 c h), km)
+            | none => (p.oops line, km))
+          | none => (p.oops line, km))
+       | "register_child", [j, h] =>
+         (match j.toNat?, h.toNat? with
+          | some j, some h => (match p.actorOfH h with
+            | some c => (p.semit (.addChild a (j + 1) c h), km)
+            | none => (p.oops line, km))
+          | _, _ => (p.oops line, km))
+       | "send_to_children", [j, b] =>
+         (match j.toNat?, b.toNat? with
+          | some j, some b => (p.semit (.bcast a (j + 1) b), km)
+          | _, _ => (p.oops line, km))
        | "weak_address", ["none"] => (p.emit a (.ctxWeak .weakAddr none), km)
        | "weak_address", ["some", h] =>
          (match h.toNat? with
@@ -237,6 +258,10 @@ def parseLine (p : PState) (km : KMap) (line : String) : PState × KMap :=
     (match a.toNat?, t.toNat? with
      | some a, some t => (p.emit a (.timerEnd t), km)
      | _, _ => (p.oops line, km))
+  | ["bcast", c, _j, b, m] =>
+    (match c.toNat?, b.toNat?, m.toNat? with
+     | some c, some b, some m => (p.emit c (.extBegin b m), km)
+     | _, _, _ => (p.oops line, km))
   | ["tick", a, t, m] =>
     (match a.toNat?, t.toNat?, m.toNat? with
      | some a, some t, some m => (p.emit a (.tickBegin t m), km)
@@ -270,7 +295,10 @@ def parseLine (p : PState) (km : KMap) (line : String) : PState × KMap :=
   | "cend" :: _ => (p, km)
   | "census" :: _ => (p, km)
   | "svcnew" :: _ => (p, km)
-  | "quiescent" :: rest => (all (.quiescent (parseNats rest)), km)
+  | "quiescent" :: rest =>
+    -- every actor is told which of the operations still pending are operations on it
+    let pend := parseNats rest
+    (p.spawns.foldl (fun q s => q.emit s.a (.quiescent (pend.filter (fun o => p.actorOfO o == some s.a)))) p, km)
   | "horizon" :: _ => (p, km)
   | "cutoff" :: _ => (p, km)
   | [] => (p, km)
@@ -280,12 +308,13 @@ structure Case where
   header : String
   spawns : List SpawnInfo
   labels : List (Nat × Label)     -- in trace order
+  slabels : List SLabel           -- in trace order
   bad : List String
   deriving Inhabited
 
 def parseCase (header : String) (lines : List String) : Case :=
   let (p, _) := lines.foldl (fun (acc : PState × KMap) line => parseLine acc.1 acc.2 line) ({}, [])
-  { header, spawns := p.spawns, labels := p.labels.reverse, bad := p.bad.reverse }
+  { header, spawns := p.spawns, labels := p.labels.reverse, slabels := p.slabels.reverse, bad := p.bad.reverse }
 
 def Case.labelsOf (c : Case) (a : Nat) : List Label :=
   (c.labels.filter (·.1 == a)).map (·.2)
